@@ -287,6 +287,33 @@ Arguments ht_resize {V}.
 Arguments ht_ff {V}.
 Arguments ht_hl {V}.
 Arguments ht_recs {V}.
+Arguments set_next {V}.
+Arguments set_rval {V}.
+Arguments set_resize {V}.
+Arguments bucket {V}.
+Arguments pct {V}.
+Arguments init_recs {V}.
+Arguments init_tab {V}.
+Arguments lyht_new {V}.
+Arguments find_loop {V}.
+Arguments find_rec {V}.
+Arguments lyht_find {V}.
+Arguments next_loop {V}.
+Arguments lyht_find_next {V}.
+Arguments insert_with {V}.
+Arguments collect_chain {V}.
+Arguments collect_all {V}.
+Arguments reinsert {V}.
+Arguments resize_with {V}.
+Arguments insert_inner {V}.
+Arguments lyht_resize {V}.
+Arguments insert {V}.
+Arguments lyht_insert {V}.
+Arguments lyht_insert_no_check {V}.
+Arguments prev_loop {V}.
+Arguments lyht_remove {V}.
+Arguments lyht_dup {V}.
+Arguments set_val {V}.
 
 (* ---- instance driven by impl/t_ht.c: values are integers, val_equal is equality; the collision
    callback of the c-operation is identity when mod and equality of val/16 otherwise ---- *)
@@ -301,16 +328,16 @@ Inductive hop :=
 Definition nht_step (t : ht N) (o : hop) : res (N * option N * ht N) :=
   match o with
   | OpIns h v =>
-      bind (lyht_insert N 0 nveq t h v) (fun x =>
+      bind (lyht_insert 0 nveq t h v) (fun x =>
       bind (rd (ht_recs (snd x)) (snd (fst x))) (fun r => Ok (fst (fst x), Some (r_val r), snd x)))
   | OpInsNC h v =>
-      bind (lyht_insert_no_check N 0 nveq t h v) (fun x =>
+      bind (lyht_insert_no_check 0 nveq t h v) (fun x =>
       bind (rd (ht_recs (snd x)) (snd (fst x))) (fun r => Ok (fst (fst x), Some (r_val r), snd x)))
-  | OpRem h v => bind (lyht_remove N 0 nveq t h v) (fun x => Ok (fst x, None, snd x))
-  | OpFind h v => bind (lyht_find N nveq t h v) (fun x => Ok (fst x, snd x, t))
-  | OpNext h v => bind (lyht_find_next N nveq t None h v) (fun x => Ok (fst x, snd x, t))
-  | OpNextCol h v => bind (lyht_find_next N nveq t (Some ncol) h v) (fun x => Ok (fst x, snd x, t))
-  | OpDup => bind (lyht_dup N 0 t) (fun t' => Ok (LY_ERR_SUCCESS, None, t'))
+  | OpRem h v => bind (lyht_remove 0 nveq t h v) (fun x => Ok (fst x, None, snd x))
+  | OpFind h v => bind (lyht_find nveq t h v) (fun x => Ok (fst x, snd x, t))
+  | OpNext h v => bind (lyht_find_next nveq t None h v) (fun x => Ok (fst x, snd x, t))
+  | OpNextCol h v => bind (lyht_find_next nveq t (Some ncol) h v) (fun x => Ok (fst x, snd x, t))
+  | OpDup => bind (lyht_dup 0 t) (fun t' => Ok (LY_ERR_SUCCESS, None, t'))
   end.
 
 (* a script: results of the operations done, and either the final table or the error that ended it *)
